@@ -254,8 +254,9 @@ pub fn free(seed: u64, runs: usize, dir: &str, maxn: usize) {
         let cfg = MmCfg {
             n,
             k: 1 + (i % 5),
-            // any string is a delimiter for the library: empty, ASCII of 1..3 bytes, and non-ASCII (bytes != chars)
-            delim: (*rng.pick(&["", " ", ",", "\t", "::", " | ", "\u{b7}", "\u{2192}", "a\u{e9}"])).to_string(),
+            // any string is a delimiter for the library: empty, ASCII of 1..3 bytes, non-ASCII (bytes != chars), and strings made of
+            // the characters values are printed with (a row ends in a value, not in a delimiter)
+            delim: (*rng.pick(&["", " ", ",", "\t", "::", " | ", "\u{b7}", "\u{2192}", "a\u{e9}", "0", "00", "50", "1", ".", "0."])).to_string(),
             header: rng.chance(1, 2),
             threads: 1 + rng.below(16) as usize,
         };
